@@ -1,7 +1,7 @@
 (* Props/C11.v -- readers are position-faithful, stateless and agree with the underlying file.  Statements only (Z / Q / lists,
    axiom-free); proofs in Proofs/ReaderProofs.v about Model/Reader.v. *)
 From Coq Require Import ZArith QArith List Bool.
-From PB Require Import Model.Disp Model.Reader Proofs.ReaderProofs.
+From PB Require Import Model.Disp Model.Reader Proofs.ReaderProofs Gen.GenReader Proofs.ReaderGen.
 Import ListNotations.
 Open Scope Z_scope.
 
@@ -60,9 +60,26 @@ Proof. reflexivity. Qed.
 (* PARTIAL (correspondence + monitor only): baseband's decoding of VDIF / DADA / GUPPI payloads, real threads and the OS,
    the Hilbert conversion of real-sampled files (C19), sideband conjugation / channel flip / axis order against the file. *)
 
+(* tie to the source by translation (T13): time_at (both forms), the product offset_at rounds and its bounds test, the three guards of
+   read(), the start time it hands on and the seek / read arguments of _read_baseband (real and complex baseband) are GENERATED from
+   readers/_base.py and readers/_baseband_readers.py on this run; the model is proved equal to them *)
+Theorem C11_generated_positions : forall r k dt t,
+  time_rel r k = gen_time_rel r k /\ time_at r k = gen_time_at r k /\ offset_rel r dt = gen_offset_rel r dt /\
+  offset_at r t = match r_t0 r with Some t0 => gen_offset_rel r (t - t0)%Q | None => None end.
+Proof. exact (fun r k dt t => conj (time_rel_generated r k) (conj (time_at_generated r k) (conj (offset_rel_generated r dt) (offset_at_generated r t)))). Qed.
+Theorem C11_generated_read : forall r offset n,
+  read r offset n =
+  if gen_read_bad_offset offset then RErr 1 else if gen_read_bad_n n then RErr 1
+  else if gen_read_beyond r offset n then RErr 2
+  else ROk n (gen_read_start r offset) (fst (gen_file_range (r_real r) offset n)) (snd (gen_file_range (r_real r) offset n)).
+Proof. exact read_generated. Qed.
+Theorem C11_generated_lazy : gen_lazy_read_is_one_delayed_read = true.
+Proof. exact lazy_read_generated. Qed.
+
 Print Assumptions C11_read.
 Print Assumptions C11_roundtrip_absolute.
 Print Assumptions C11_interleaving.
 Print Assumptions C11_adjacent.
 Print Assumptions C11_offset_nearest.
 Print Assumptions C11_refused_before_start.
+Print Assumptions C11_generated_read.
